@@ -448,6 +448,14 @@ def run(prog, chk):
     if memrules.dup_field_correspondence(prog, r7) < 5:
         raise Broken("fewer than 5 duplicated-field stores found")
 
+    r12 = chk.rule("R12-storing-paths-balanced", "the functions that store a value (set_value, add_packet, an iterator update) return "
+                   "with the transaction depth they were entered with: a refusal that rolls back to a savepoint it never opened, or "
+                   "leaves one open, undoes or half-applies neighbouring stores (the balance rule of C05 for these functions)",
+                   primary=False, floor=3)
+    from . import c05
+    c05.check_balance(prog, chk, r12, only={"cif_container_set_value", "cif_container_set_all_values", "cif_loop_add_packet",
+                                            "cif_pktitr_update_packet", "cif_loop_add_item_internal", "cif_loop_add_item"})
+
     r11 = chk.rule("R11-character-text-stored-verbatim", "the text of a character value is not handed to sqlite3_bind_text16 "
                    "unexamined: SQLite takes a leading U+FEFF / U+FFFE for a byte-order mark (dropped; the latter also swaps the "
                    "bytes of the rest) and returns U+FFFE / U+FFFF from its UTF-8 storage as U+FFFD; names and codes are "
